@@ -1199,7 +1199,11 @@ func (db *DB) acquireReadLock(ctx context.Context) error {
 	}
 
 	// Start long running read-transaction to prevent checkpoints.
-	tx, err := db.db.BeginTx(ctx, nil)
+	// The transaction outlives the call that starts it, so it must not be bound
+	// to the caller's context: database/sql rolls a transaction back as soon as
+	// its context is canceled (e.g. when a sync request returns), which would
+	// silently drop the read lock while db.rtx still looks held.
+	tx, err := db.db.BeginTx(context.WithoutCancel(ctx), nil)
 	if err != nil {
 		return err
 	}
